@@ -244,6 +244,19 @@ CHECKS = {
         design_ref='DESIGN.md section 9 C05',
         note=BASE_NOTE + 'The expected category and line per catalogue entry are the property wording applied by hand.',
         technique='Lean 4 theorems over a block-assembly model and the operator tables + correspondence with the real parser + fault-injection oracle'),
+    'C14': dict(
+        category='proof',
+        text='PARTIAL. `lex_render` (Model/Lex.lean, a one-character-at-a-time lexer with four modes): however a token stream is '
+             'written - letter case of every keyword and identifier, any number of blanks or tabs before every token, trailing '
+             'comments, empty and comment-only lines - the lexical layer reads back exactly that stream (string literals, DATA and '
+             'REM tails verbatim; two-character comparison operators are one token; numerals with a signed exponent are out of '
+             'scope); `same_tokens`: two such writings have the same tokens. Tie: for random single edits the model decides '
+             'whether the tokens changed; whenever they did not, the real compiler must produce identical sections 1-4. Above the '
+             'lexical layer (colon / newline, LET, CALL forms, NEXT variable, ><, label renaming): metamorphic oracle on random '
+             'compositions of nine rewritings - identical sections, else identical behaviour.',
+        design_ref='DESIGN.md section 9 C14',
+        note=BASE_NOTE + 'That the pyparsing grammar depends on nothing but the model\'s tokens is sampled, not proved.',
+        technique='Lean 4 round-trip theorem over a lexer model + token-equality correspondence with the real compiler + metamorphic oracle'),
 }
 
 PENDING = ('not yet decided by the Lean framework in this commit; design in DESIGN.md section 9, implementation order in '
